@@ -67,12 +67,28 @@ type up4GenSess struct {
 	qers   []model.QER
 }
 
+// genUP4DLFAR draws a downlink FAR as an Update FAR states it; genUP4DLFARCreate as a Create FAR does (a rule created
+// with another action than forward carries no Forwarding Parameters, TS 29.244 table 7.5.2.3-1).
+func genUP4DLFARCreate(t *rapid.T, id uint32) model.FAR {
+	f := genUP4DLFAR(t, id)
+	if f.Action&model.ActFORW == 0 {
+		f = model.FAR{ID: id, Action: f.Action, HasFwd: true}
+	}
+	return f
+}
+
 func genUP4DLFAR(t *rapid.T, id uint32) model.FAR {
-	switch rapid.IntRange(0, 4).Draw(t, "dlfar") {
+	switch rapid.IntRange(0, 5).Draw(t, "dlfar") {
 	case 0:
 		return model.FAR{ID: id, Action: model.ActBUFF | model.ActNOCP, HasFwd: true}
 	case 1:
 		return model.FAR{ID: id, Action: model.ActDROP, HasFwd: true}
+	case 2:
+		// the rule buffers or drops but keeps naming its tunnel (an idle UE whose gNB tunnel the control plane
+		// goes on stating): it needs no tunnel peer meanwhile
+		return model.FAR{ID: id, Action: rapid.SampledFrom([]uint8{model.ActBUFF | model.ActNOCP, model.ActBUFF, model.ActDROP}).Draw(t, "idleaction"),
+			HasFwd: true, DstIf: model.IfAccess, HasOHC: true,
+			TEID: uint32(rapid.IntRange(1, 1<<30).Draw(t, "dlteid")), Peer: rapid.SampledFrom(up4GNBs).Draw(t, "gnb")}
 	}
 	return model.FAR{ID: id, Action: model.ActFORW, HasFwd: true, DstIf: model.IfAccess, HasOHC: true,
 		TEID: uint32(rapid.IntRange(1, 1<<30).Draw(t, "dlteid")), Peer: rapid.SampledFrom(up4GNBs).Draw(t, "gnb")}
@@ -107,7 +123,7 @@ func genUP4Sess(t *rapid.T, idx, peer int, alloc bool, precWide bool) (model.Op,
 	choose := rapid.Bool().Draw(t, "choose")
 	useAlloc := alloc && rapid.Bool().Draw(t, "alloc")
 	used := map[string]bool{}
-	g.dlFAR = genUP4DLFAR(t, 2)
+	g.dlFAR = genUP4DLFARCreate(t, 2)
 	op.FARs = []model.FAR{{ID: 1, Action: model.ActFORW, HasFwd: true, DstIf: model.IfCore}, g.dlFAR}
 	for i := 0; i < nPairs; i++ {
 		sdf := rapid.SampledFrom(up4SDFs).Draw(t, "sdf")
